@@ -4,7 +4,7 @@ StopFieldError ends the sequence (the remaining members are skipped)."""
 from pyvc import terms as t, prelude
 from pyvc.terms import I, S
 from pyvc.values import *  # noqa
-from pyvc.contract import Case, rk_dyn
+from pyvc.contract import Case, rk_dyn, rk_list
 from pyvc.exec import LoopSpec
 from pyvc.lemma import Lemma
 from .prims import fcontract, S_, generic_raise, buffer_same
@@ -112,12 +112,34 @@ def _seq_ok(pre, post):
     return out
 
 
+def _seq_bad(pre, post):
+    out = list(generic_raise(pre, post))
+    LE = post.st.ghost.get('LE')
+    ghost_mode = getattr(post.eng.models, 'ghost_mode', False)
+    if LE is None and not ghost_mode:
+        return out          # a failure before the first member (nothing to say in terms of the fold)
+    LE = _le(post)
+    o0 = pre.obj('stream')
+    sl = pre.self.fields['subcons'].ident
+    n = t.app('sl_len', t.INT, sl)
+    kk = post.st.ghost.get('loop_k')
+    if kk is None:
+        kk = fresh('failed_member', t.INT)
+    c0, c1 = pre.obj('context').addr, _addr(LE, 'context')
+    F = qfold(LE, o0, sl, t.add(kk, t.ONE))
+    out += [('nested-scope-is-a-child-of-the-enclosing-scope', child_of(LE.ghost['H'], LE.ghost['D'], c1, pre.st.ghost['H'], pre.st.ghost['D'], c0), ('C07',)),
+            ('members-start-at-the-entry-position', t.eq(LE.get(LE.env['stream']).pos, o0.pos), ('C03',)),
+            ('a-failure-is-the-failure-of-some-member-in-the-specification-fold', t.and_(t.le(t.ZERO, kk), t.lt(kk, n), t.not_(ps('ps_ok', F))), T,
+             [('def', _qunfold(LE, o0, sl, t.add(kk, t.ONE)))])]
+    return out
+
+
 def register_sequences(src):
     define_sequence_folds(src)
     sequence_lemmas()
     fcontract('Sequence', '_parse', [
-        Case('ok', 'return', lambda pre: t.TRUE, ensures=_seq_ok, rkind=rk_dyn, modifies=['stream']),
-        Case('fails', 'raise', lambda pre: t.TRUE, ensures=generic_raise, modifies=['stream']),
+        Case('ok', 'return', lambda pre: t.TRUE, ensures=_seq_ok, rkind=rk_list, modifies=['stream']),
+        Case('fails', 'raise', lambda pre: t.TRUE, ensures=_seq_bad, modifies=['stream']),
     ], loops={'for sc in self.subcons': LoopSpec(_seq_inv, tags=T, modifies=())}, tags=T)
 
 
@@ -178,3 +200,114 @@ def register_focused(src):
         Case('fails', 'raise', lambda pre: t.TRUE, ensures=generic_raise, modifies=['stream']),
     ], loops={'for (i, sc) in enumerate(self.subcons)': LoopSpec(_foc_inv, tags=T + ('C06',), modifies=())}, tags=T,
         requires=lambda pre: [('member-names-are-pairwise-distinct', _names_distinct(pre.self.fields['subcons'].ident, t.app('sl_len', t.INT, pre.self.fields['subcons'].ident)))])
+
+
+# ================================================================================================ Sequence._build
+# Member i is built from element i of the supplied sequence (None for every member when no value is supplied), appending where
+# member i-1 ended; a named member's supplied value is put into the nested scope before it is built and REPLACED by what its
+# build returned afterwards, so later members see the value actually written (C01: parse hands on the parsed value the same way).
+from .composites import bs, _le_build  # noqa
+from pyvc.contract import rk_list  # noqa
+
+
+def define_sequence_build_folds(src):
+    prelude.declare_fun('dyn_item', [t.VAL, t.INT], t.VAL)
+    prelude.define('qbitem', """(define-fun qbitem ((v Val) (i Int)) Val (ite ((_ is VNone) v) VNone (dyn_item v i)))""", deps=['dyn_item'])
+    prelude.define('qbstep', """(define-fun qbstep ((m Int) (s BS) (e Val) (base Int) (c Int)) BS
+  (ite (not (bs_ok s)) s
+  (let ((H1 (ite (truthy (sc_name m)) (store (bs_H s) c (store (select (bs_H s) c) (sval (sc_name m)) e)) (bs_H s)))
+        (D1 (ite (truthy (sc_name m)) (store (bs_D s) c (store (select (bs_D s) c) (sval (sc_name m)) true)) (bs_D s))))
+  (ite (B_ok m e (+ (bs_pos s) base) H1 D1 c)
+    (let ((n (B_len m e (+ (bs_pos s) base) H1 D1 c)) (W (B_bytes m e (+ (bs_pos s) base) H1 D1 c)) (ret (B_ret m e (+ (bs_pos s) base) H1 D1 c))
+          (H2 (B_H m e (+ (bs_pos s) base) H1 D1 c)) (D2 (B_D m e (+ (bs_pos s) base) H1 D1 c)))
+      (mkBS true (ite (> n 0) (awrite (bs_buf s) (bs_len s) (bs_pos s) W 0 n) (bs_buf s))
+            (ite (> n 0) (ite (>= (bs_len s) (+ (bs_pos s) n)) (bs_len s) (+ (bs_pos s) n)) (bs_len s))
+            (+ (bs_pos s) n)
+            (ite (truthy (sc_name m)) (store H2 c (store (select H2 c) (sval (sc_name m)) ret)) H2)
+            (ite (truthy (sc_name m)) (store D2 c (store (select D2 c) (sval (sc_name m)) true)) D2)))
+    (mkBS false (bs_buf s) (bs_len s) (bs_pos s) H1 D1)))))""",
+                   deps=['B_ok', 'B_len', 'B_bytes', 'B_ret', 'B_H', 'B_D', 'truthy', 'sc_name', 'awrite'])
+    prelude.define('qbfold', """(define-fun-rec qbfold ((sl Int) (k Int) (s0 BS) (v Val) (base Int) (c Int)) BS
+  (ite (<= k 0) s0 (qbstep (sl_at sl (- k 1)) (qbfold sl (- k 1) s0 v base c) (qbitem v (- k 1)) base c)))""", deps=['qbstep', 'qbitem', 'sl_at'])
+    prelude.define('qbret', """(define-fun qbret ((sl Int) (j Int) (s0 BS) (v Val) (base Int) (c Int)) Val
+  (let ((s (qbfold sl j s0 v base c)) (m (sl_at sl j)) (e (qbitem v j)))
+  (let ((H1 (ite (truthy (sc_name m)) (store (bs_H s) c (store (select (bs_H s) c) (sval (sc_name m)) e)) (bs_H s)))
+        (D1 (ite (truthy (sc_name m)) (store (bs_D s) c (store (select (bs_D s) c) (sval (sc_name m)) true)) (bs_D s))))
+  (B_ret m e (+ (bs_pos s) base) H1 D1 c))))""", deps=['qbfold', 'qbitem', 'B_ret', 'sl_at', 'sc_name', 'truthy'])
+
+
+def _qb0(LE):
+    o = LE.get(LE.env['stream'])
+    return t.app('mkBS', 'BS', t.TRUE, o.buf, o.len, o.pos, LE.ghost['H'], LE.ghost['D'])
+
+
+def qbfold(LE, sl, k, v, base):
+    return t.app('qbfold', 'BS', sl, k, _qb0(LE), v, base, _addr(LE, 'context'))
+
+
+def qbret(LE, sl, j, v, base):
+    return t.app('qbret', t.VAL, sl, j, _qb0(LE), v, base, _addr(LE, 'context'))
+
+
+def _qbunfold(LE, sl, k, v, base):
+    prev = qbfold(LE, sl, t.sub(k, t.ONE), v, base)
+    step = t.app('qbstep', 'BS', t.app('sl_at', t.INT, sl, t.sub(k, t.ONE)), prev, t.app('qbitem', t.VAL, v, t.sub(k, t.ONE)), base, _addr(LE, 'context'))
+    return t.implies(t.ge(k, t.ONE), t.eq(qbfold(LE, sl, k, v, base), step))
+
+
+def _seq_build_inv(L):
+    pre = L.extra['pre']
+    o0 = pre.obj('stream')
+    if o0.model == 'adv':
+        return []
+    sl = pre.self.fields['subcons'].ident
+    base = _base(o0)
+    v = pre['obj'].t
+    F = qbfold(L.entry, sl, L.k, v, base)
+    o = L.obj('stream')
+    hints = [_qbunfold(L.entry, sl, L.k, v, base)] if L.k.op != 'int' else []
+    out = [('state-after-k-members-is-the-specification-fold', t.and_(bs('bs_ok', F), t.eq(o.buf, bs('bs_buf', F)), t.eq(o.len, bs('bs_len', F)), t.eq(o.pos, bs('bs_pos', F)),
+                                                                    t.eq(L.st.ghost['H'], bs('bs_H', F)), t.eq(L.st.ghost['D'], bs('bs_D', F))), None, hints),
+           ('scope-keeps-its-identity', t.eq(_addr(L.st, 'context'), _addr(L.entry, 'context')))]
+    it = L.obj('objiter')
+    if hasattr(it, 'idx'):
+        out.append(('the-iterator-over-the-supplied-values-stands-at-element-k', t.eq(it.idx, L.k)))
+    rl = L.obj('retlist')
+    if rl.items is None:
+        j = t.var('qbj!', t.INT)
+        out.append(('returned-list-holds-what-each-member-build-returned', t.and_(t.eq(rl.len, L.k),
+                    t.forall([j], t.implies(t.and_(t.le(t.ZERO, j), t.lt(j, rl.len)), t.eq(t.T(t.VAL, 'select', (rl.arr, j)), qbret(L.entry, sl, j, v, base))), pats=[[t.T(t.VAL, 'select', (rl.arr, j))]]))))
+    return out
+
+
+def _seq_build_ok(pre, post):
+    o0, o2 = pre.obj('stream'), post.obj('stream')
+    sl = pre.self.fields['subcons'].ident
+    n = t.app('sl_len', t.INT, sl)
+    LE = _le_build(post)
+    base = _base(o0)
+    v = pre['obj'].t
+    F = qbfold(LE, sl, n, v, base)
+    c0 = pre.obj('context').addr
+    c1 = _addr(LE, 'context')
+    le_o = LE.get(LE.env['stream'])
+    stopped = post.st.ghost.get('stopped', t.FALSE)
+    r = post.st.get(post.result) if isinstance(post.result, VRef) else None
+    out = [('nested-scope-is-a-child-of-the-enclosing-scope', child_of(LE.ghost['H'], LE.ghost['D'], c1, pre.st.ghost['H'], pre.st.ghost['D'], c0), ('C07',)),
+           ('stream-untouched-before-the-first-member', t.and_(t.eq(le_o.buf, o0.buf), t.eq(le_o.len, o0.len), t.eq(le_o.pos, o0.pos)), ('C03',)),
+           ('members-built-in-declaration-order-each-from-its-own-element-appending-after-the-previous',
+            t.implies(t.not_(stopped), t.and_(bs('bs_ok', F), t.eq(o2.buf, bs('bs_buf', F)), t.eq(o2.len, bs('bs_len', F)), t.eq(o2.pos, bs('bs_pos', F)))), ('C03', 'C07', 'C01')),
+           ('scope-holds-what-each-named-member-build-returned', t.implies(t.not_(stopped), t.and_(t.eq(post.st.ghost['H'], bs('bs_H', F)), t.eq(post.st.ghost['D'], bs('bs_D', F)))), ('C07', 'C01'))]
+    if r is not None and r.items is None:
+        j = t.var('qbj!', t.INT)
+        out.append(('returns-what-each-member-build-returned-in-order', t.implies(t.not_(stopped), t.and_(t.eq(r.len, n),
+                    t.forall([j], t.implies(t.and_(t.le(t.ZERO, j), t.lt(j, r.len)), t.eq(t.T(t.VAL, 'select', (r.arr, j)), qbret(LE, sl, j, v, base))), pats=[[t.T(t.VAL, 'select', (r.arr, j))]]))), ('C03', 'C01')))
+    return out
+
+
+def register_sequence_build(src):
+    define_sequence_build_folds(src)
+    fcontract('Sequence', '_build', [
+        Case('ok', 'return', lambda pre: t.TRUE, ensures=_seq_build_ok, rkind=rk_list, modifies=['stream']),
+        Case('fails', 'raise', lambda pre: t.TRUE, modifies=['stream']),
+    ], loops={'for (i, sc) in enumerate(self.subcons)': LoopSpec(_seq_build_inv, tags=T + ('C01',))}, tags=T + ('C01',), sequential_build=False)
